@@ -149,7 +149,7 @@ def ref_lex(T, a, utf8_ok=lambda items: True):
 
 def int_value(T, a, st, en, radix):
     """exact mathematical value of the digits a[st:en] as a z3 bit-vector of 80 bits / python int (forks nothing: digits already classified)"""
-    W = 80
+    W = 136
     acc = 0
     for b in a[st:en]:
         if isinstance(b, int):
@@ -287,7 +287,7 @@ class ArgCheck:
                 if neg and not signed:
                     return ('skip',)       # "-0" for an unsigned type: not decided by the property
                 val = int_value(T, a, st, en, 10)
-                if en - st > 24:
+                if en - st > 38:
                     return ('skip',)
                 limit = (1 << (bits - 1)) if (signed and neg) else ((1 << (bits - 1)) - 1 if signed else (1 << bits) - 1)
                 fits = (val <= limit) if isinstance(val, int) else z3.ULE(val, limit)
@@ -296,7 +296,7 @@ class ArgCheck:
                 return ('error', ['NumericDataError'])
             if kind == 'radix':
                 val = int_value(T, a, lit[1], lit[2], lit[3]['radix'])
-                if lit[2] - lit[1] > 18:
+                if lit[2] - lit[1] > {16: 32, 8: 42, 2: 128}[lit[3]['radix']]:
                     return ('skip',)
                 limit = (1 << (bits - 1)) - 1 if signed else (1 << bits) - 1
                 fits = (val <= limit) if isinstance(val, int) else z3.ULE(val, limit)
@@ -345,7 +345,7 @@ class ArgCheck:
             val, bits = exp[1], exp[2]
             if isinstance(val, int) and isinstance(got, int):
                 return None if got == val else f'delivered {got}, written {val}'
-            e = val if is_sym(val) else z3.BitVecVal(val, 80)
+            e = val if is_sym(val) else z3.BitVecVal(val, 136)
             e = z3.Extract(bits - 1, 0, e) if e.size() > bits else e
             g = got if is_sym(got) else z3.BitVecVal(got, bits)
             sat, _ = ex.is_feasible(g != e)
